@@ -37,7 +37,7 @@ PLAN = {
                      model=[(2, "full")], deep=[("SO2", 3, "core"), ("C1", 3, "core"), ("SO3", 3, "core")],
                      d2cap=6000, sim=(80, 3000), asan=True, procs=10, chunk=2500),
 }
-SPEC_MUTANTS = [("alias", "SE3"), ("short", "SE2"), ("galso3", "Gal"), ("dofpsum", "B3")]
+SPEC_MUTANTS = [("alias", "SE3"), ("notemp", "SE2"), ("short", "SE2"), ("galso3", "Gal"), ("dofpsum", "B3")]
 
 ASSUME = [
     "the documented coefficient layouts (header comments 'Memory layout', transcribed in spec/MapLayout.tla) are the reference for every range",
@@ -314,7 +314,8 @@ def _check(oc, prop, tier, seed, replay, workdir):
     tasks = []
     for mt in mtypes:
         for depth, alpha in plan["model"]:
-            # the exhaustive depth-2 run also emits its histories when the alphabet is small enough to keep them all
+            if alpha == "full" and mt in ("B5", "BN"):
+                continue        # 2112^2 histories: the core alphabet run ("d2" below) is the exhaustive depth-2 check for these
             tasks.append(("check", mt, depth, alpha, "-", None))
         tasks.append(("d1", mt, 1, "full", os.path.join(workdir, f"{mt}.d1.json"), None))
         tasks.append(("d2", mt, 2, "core", os.path.join(workdir, f"{mt}.d2.json"), None))
@@ -396,7 +397,7 @@ def _check(oc, prop, tier, seed, replay, workdir):
         extra["sanitizer_clean_programs"] = sanitizer_pass(oc, names, progs, workdir, seed)
 
     # ---- vacuity: every operation of the model must have been observed for every instantiation
-    need = ["assign", "massign", "mul", "copyctor", "plus", "setid", "cast", "const", "const2"]
+    need = ["assign", "massign", "mul", "amul", "bmul", "copyctor", "plus", "setid", "cast", "const", "const2"]
     missing = []
     seen_ops = {}
     for k in oc.cov:
